@@ -1,4 +1,5 @@
 import PsiProofs.Helper.C05_Spec
+import PsiProofs.Helper.C05_SeqSpec
 /-!
 # C05 — epoch extraction returns exactly the requested samples, once, for any chunking
 
@@ -12,6 +13,16 @@ every request and removal), any sample type `α` (scalar or multichannel column)
 per extractor, every request made visible while its first sample is still in the look-back
 window (`lookbackStart`, derived from the prune rule; `lookbackStart_le` gives the
 chunking-independent sufficient condition "at most `B` samples past its start were acquired").
+
+**Per-request form** (second half of the file).  The real extractor tolerates a dictionary key that
+is re-used after the earlier request carrying it is gone (a queue paused exactly on a trial's start
+and resumed presents the same stimulus at the same `t0` again).  `ValidSeq B L ops` is the wider
+quantifier: instead of pairwise distinct keys it demands, call by call and key by key, the
+discipline `KeyOK` (Helper/C05_SeqDefs) — a key re-appears only once the earlier request with that
+key has been removed (removal seen in this call or before) or delivered (before).  `Valid` is the
+special case (`valid_validSeq`), so the theorems of the first half are instances of the
+per-request ones; the point excluded by `ValidSeq` is exactly the code's
+`ValueError('Duplicate epochs not supported')` (`duplicate_key_rejected`).
 -/
 namespace Psi.Extract
 
@@ -255,5 +266,183 @@ example : (deliveries 2 exOps 8).flatten = [] :=
     (by refine ⟨⟨by decide, by decide, by decide, by decide⟩, ⟨by decide, by decide, by decide, by decide⟩,
       ⟨by decide, by decide, by decide, by decide⟩, trivial⟩)
     ⟨exOps[0], [exOps[1], exOps[2]], rfl, by decide⟩ (by decide) (Or.inr (by decide))
+
+/-! ## Per-request form: keys may be re-used -/
+
+/-- The wider quantifier: one epoch length, every request inside the look-back window, and for
+every key the discipline `KeyOK` in every call. -/
+def ValidSeq {α} (B L : Nat) (ops : List (Op α)) : Prop := AllValidSeq B L [] ops
+
+/-- pairwise distinct keys are a special case of the key discipline -/
+theorem valid_validSeq {α} (B L : Nat) (ops : List (Op α)) (h : Valid B L ops) : ValidSeq B L ops :=
+  allValidSeq_of_allValid B L [] ops h
+
+/-- `r` is the request of call `op` that is taken in under its key: the removals of this call
+naming the key are used up by the capture pending under it after `pre` (if any) and by the earlier
+requests of this call with the same key (each swallowed by the `skip` list).  With distinct keys
+this reads "no removal of this call names `r`". -/
+def TakenIn {α} (pre : List (Op α)) (op : Op α) (r : Request) : Prop :=
+  ∃ a b, op.reqs = a ++ r :: b ∧
+    (a.filter (fun q => q.key == r.key)).length = skipCount r.key (openAfter r.key pre) op
+
+/-- **Refinement, per request sequence.**  In a history whose keys are re-used with discipline,
+the epochs delivered under any key `κ`, call by call, are those of the per-key spec machine
+`specReqs` (state: the one request being captured under `κ`; per call: removals first — one hits
+the pending capture, the others swallow the first requests of the call —, then the chunk, then the
+requests): at most one epoch per call, `stream[s, s+len)` of the very request the machine names. -/
+theorem extract_refines_spec_seq {α} (B L : Nat) (ops : List (Op α)) (hv : ValidSeq B L ops) (κ : Nat) :
+    deliveries B ops κ =
+      (specReqs κ 0 none ops).map (fun o => o.toList.map (epochOf (streamOf ops))) := by
+  have hS : ChunksOf (streamOf ops) 0 ops := by
+    have := chunksOf_streamOf ([] : List α) ops
+    simpa using this
+  have := (run_seq (streamOf ops) B L ops [] (State.init B) (inv_init _ B L) (openLink_init B) hv
+    (by simpa [total] using hS)).2.2.2 κ
+  simpa [deliveries, total, openAfter, openK] using this
+
+theorem takenIn_taken {α} (B L : Nat) (pre : List (Op α)) (op : Op α) (r : Request)
+    (hv : OpValidSeq B L pre op) (ht : TakenIn pre op r) :
+    takenK r.key (openAfter r.key pre) op = [r] := by
+  obtain ⟨a, b, hab, hcount⟩ := ht
+  have hadds : addsK r.key op = a.filter (fun q => q.key == r.key) ++ r :: b.filter (fun q => q.key == r.key) := by
+    simp [addsK, hab, List.filter_append]
+  have htk : takenK r.key (openAfter r.key pre) op = r :: b.filter (fun q => q.key == r.key) := by
+    unfold takenK
+    rw [hadds, ← hcount, List.drop_left]
+  have hle := (hv.reuse r.key).1
+  rw [htk] at hle ⊢
+  simp only [List.length_cons] at hle
+  have : b.filter (fun q => q.key == r.key) = [] := List.length_eq_zero_iff.1 (by omega)
+  rw [this]
+
+/-- the deliveries under a key in the window of calls `[a, a+n)` -/
+def deliveriesIn {α} (B : Nat) (ops : List (Op α)) (k a n : Nat) : List (List (Epoch α)) :=
+  ((deliveries B ops k).drop a).take n
+
+theorem window_spec {α} (B L : Nat) (pre win post : List (Op α)) (κ : Nat)
+    (hv : ValidSeq B L (pre ++ win ++ post)) :
+    (deliveriesIn B (pre ++ win ++ post) κ pre.length win.length).flatten =
+      ((specReqs κ (total pre) (openAfter κ pre) win).filterMap id).map
+        (epochOf (streamOf (pre ++ win ++ post))) := by
+  unfold deliveriesIn
+  rw [extract_refines_spec_seq B L _ hv κ, List.append_assoc, specReqs_append, List.map_append,
+    List.drop_left' (by simp [specReqs_length]), specReqs_append, List.map_append,
+    List.take_left' (by simp [specReqs_length]), flatten_emit]
+  simp [openAfter]
+
+/-- **Delivered exactly once, exact content — per request.**  `r` is the request taken in under its
+key by call `opj`; during the following calls `mid` its key is neither requested again nor named
+by a removal, and the chunks of `opj :: mid` reach its last sample.  Then the calls `opj :: mid`
+deliver exactly one epoch under its key, and it is `stream[s, s+len)` carrying `r` itself.
+(`mid` may be extended up to the call that re-uses the key; with distinct keys: to the end.) -/
+theorem delivered_exact_seq {α} (B L : Nat) (pre mid post : List (Op α)) (opj : Op α) (r : Request)
+    (hv : ValidSeq B L (pre ++ (opj :: mid) ++ post)) (ht : TakenIn pre opj r)
+    (hnoreq : ∀ o ∈ mid, ∀ q ∈ o.reqs, q.key ≠ r.key) (hnorem : ∀ o ∈ mid, r.key ∉ o.rems)
+    (hend : r.s.toNat + r.len ≤ total pre + total (opj :: mid)) :
+    (deliveriesIn B (pre ++ (opj :: mid) ++ post) r.key pre.length (mid.length + 1)).flatten =
+      [epochOf (streamOf (pre ++ (opj :: mid) ++ post)) r] := by
+  have hvj : OpValidSeq B L pre opj := by
+    have := (allValidSeq_append B L [] pre ((opj :: mid) ++ post)).1 (by simpa [ValidSeq] using hv)
+    simpa [AllValidSeq] using this.2.1
+  have htk := takenIn_taken B L pre opj r hvj ht
+  have hw := window_spec B L pre (opj :: mid) post r.key hv
+  simp only [List.length_cons] at hw
+  rw [hw, ((spec_window r.key (total pre) _ r opj mid htk (fun o ho => ⟨hnoreq o ho, hnorem o ho⟩)).1 hend).1]
+  rfl
+
+/-- **Removed before its last sample ⇒ not delivered — per request.**  `r` is taken in by call
+`op0`; the following calls `seg` are quiet for its key and do not reach its last sample; then call
+`opi` brings a removal naming the key.  Then (a) the calls `op0 :: seg` deliver nothing under the
+key; (b) `r` was still the request being captured under it; (c) the removal discards it: whatever
+call `opi` delivers under the key, and whatever is being captured under it afterwards, is a request
+made in `opi` itself (a re-use of the key), never `r`'s capture. -/
+theorem removed_never_delivered_seq {α} (B L : Nat) (pre seg post : List (Op α)) (op0 opi : Op α)
+    (r : Request)
+    (hv : ValidSeq B L (pre ++ (op0 :: seg) ++ opi :: post)) (ht : TakenIn pre op0 r)
+    (hnoreq : ∀ o ∈ seg, ∀ q ∈ o.reqs, q.key ≠ r.key) (hnorem : ∀ o ∈ seg, r.key ∉ o.rems)
+    (hrem : r.key ∈ opi.rems)
+    (hearly : total pre + total (op0 :: seg) < r.s.toNat + r.len) :
+    (deliveriesIn B (pre ++ (op0 :: seg) ++ opi :: post) r.key pre.length (seg.length + 1)).flatten = [] ∧
+    openAfter r.key (pre ++ (op0 :: seg)) = some r ∧
+    ∀ q, (keyEmit r.key (total (pre ++ (op0 :: seg))) (some r) opi = some q ∨
+          openAfter r.key (pre ++ (op0 :: seg) ++ [opi]) = some q) → q ∈ opi.reqs := by
+  have hvj : OpValidSeq B L pre op0 := by
+    have := (allValidSeq_append B L [] pre ((op0 :: seg) ++ opi :: post)).1 (by simpa [ValidSeq] using hv)
+    simpa [AllValidSeq] using this.2.1
+  have htk := takenIn_taken B L pre op0 r hvj ht
+  have hw := window_spec B L pre (op0 :: seg) (opi :: post) r.key hv
+  simp only [List.length_cons] at hw
+  obtain ⟨s1, s2⟩ := (spec_window r.key (total pre) _ r op0 seg htk
+    (fun o ho => ⟨hnoreq o ho, hnorem o ho⟩)).2 hearly
+  have hopen : openAfter r.key (pre ++ (op0 :: seg)) = some r := by
+    simp only [openAfter, openK_append, Nat.zero_add]; exact s2
+  refine ⟨by rw [hw, s1]; rfl, hopen, ?_⟩
+  intro q hq
+  rw [openAfter_snoc, hopen] at hq
+  exact (takenK_sub r.key _ opi q (removal_discards r.key _ (some r) opi hrem q hq)).1
+
+/-- **Soundness of everything delivered / metadata pairing — keys re-usable.**  The extractor never
+raises on a history in `ValidSeq`, and every epoch it hands to its target is `stream[s, s+len)` of
+the request it carries, which is one of the requests made; length `L`. -/
+theorem metadata_paired_seq {α} (B L : Nat) (ops : List (Op α)) (hv : ValidSeq B L ops) :
+    ∀ out ∈ (run (State.init B) ops).2, ∃ batch fired, out = .ok batch fired ∧
+      ∀ e ∈ batch, e = epochOf (streamOf ops) e.req ∧ e.req ∈ allReqs ops ∧ e.data.length = L := by
+  have hS : ChunksOf (streamOf ops) 0 ops := by
+    have := chunksOf_streamOf ([] : List α) ops
+    simpa using this
+  have := (run_seq (streamOf ops) B L ops [] (State.init B) (inv_init _ B L) (openLink_init B) hv
+    (by simpa [total] using hS)).2.2.1
+  simpa [EpochOK] using this
+
+/-! ### Non-vacuity of the per-request form, and the excluded point -/
+
+/-- stream 10..16 in chunks 3+1+3, look-back 4.  Key 8 = [11,15): requested in call 0 (tag 80);
+call 1 sees its removal *and* the same key again (tag 81, same samples) — the re-presented trial;
+call 2 first sees key 9 requested, removed and requested again within one call. -/
+def exSeq : List (Op Nat) :=
+  [ { chunk := [10, 11, 12], reqs := [⟨8, 1, 4, 80⟩], rems := [], complete := false },
+    { chunk := [13], reqs := [⟨8, 1, 4, 81⟩], rems := [8], complete := false },
+    { chunk := [14, 15, 16], reqs := [⟨9, 2, 4, 90⟩, ⟨9, 2, 4, 91⟩], rems := [9], complete := true } ]
+
+theorem exSeq_valid : ValidSeq 4 4 exSeq := by
+  have key : ∀ (hist : List (Op Nat)) (op : Op Nat) (ks : List Nat),
+      (∀ q ∈ op.reqs, q.key ∈ ks) → (∀ κ ∈ ks, KeyOK κ (openAfter κ hist) op) →
+      ∀ κ, KeyOK κ (openAfter κ hist) op := by
+    intro hist op ks h1 h2 κ
+    by_cases hk : κ ∈ ks
+    · exact h2 κ hk
+    · exact keyOK_of_no_adds κ _ op (addsK_nil_of κ op (fun q hq he => hk (he ▸ h1 q hq)))
+  refine ⟨⟨by decide, by decide, key _ _ [8] (by decide) (by decide)⟩,
+    ⟨by decide, by decide, key _ _ [8] (by decide) (by decide)⟩,
+    ⟨by decide, by decide, key _ _ [9] (by decide) (by decide)⟩, trivial⟩
+
+/-- not in the old quantifier: key 8 occurs twice -/
+example : ¬ Valid 4 4 exSeq := by
+  intro h
+  exact h.2.1.fresh ⟨8, 1, 4, 81⟩ (by decide) ⟨8, 1, 4, 80⟩ (by decide) rfl
+
+/-- the run: the first request of key 8 is discarded, the second one delivered; of key 9 the
+first request is swallowed by the removal seen in the same call, the second one delivered -/
+example : (run (State.init 4) exSeq).2.map (fun o => match o with
+      | .ok b f => (b.map (fun e => (e.req.tag, e.data)), f) | _ => ([], false)) =
+    [([], false), ([], false), ([(81, [11, 12, 13, 14]), (91, [12, 13, 14, 15])], true)] := by decide
+
+example : (deliveriesIn 4 exSeq 8 1 2).flatten = [epochOf (streamOf exSeq) ⟨8, 1, 4, 81⟩] :=
+  delivered_exact_seq 4 4 [exSeq[0]] [exSeq[2]] [] exSeq[1] ⟨8, 1, 4, 81⟩ exSeq_valid
+    ⟨[], [], rfl, by decide⟩ (by decide) (by decide) (by decide)
+
+example : (deliveriesIn 4 exSeq 8 0 1).flatten = [] :=
+  (removed_never_delivered_seq 4 4 [] [] [exSeq[2]] exSeq[0] exSeq[1] ⟨8, 1, 4, 80⟩ exSeq_valid
+    ⟨[], [], rfl, by decide⟩ (by decide) (by decide) (by decide) (by decide)).1
+
+/-- **The excluded point.**  A key re-used while the earlier request with it is still being
+captured (its removal not yet seen): the extractor raises — line 829,
+`ValueError('Duplicate epochs not supported')` — and is dead afterwards. -/
+theorem duplicate_key_rejected :
+    (run (State.init 4)
+      [ ({ chunk := [10, 11, 12], reqs := [⟨8, 1, 4, 80⟩], rems := [], complete := false } : Op Nat),
+        { chunk := [13], reqs := [⟨8, 1, 4, 81⟩], rems := [], complete := false },
+        { chunk := [14], reqs := [], rems := [8], complete := false } ]).2.map
+      (fun o => match o with | .ok _ _ => 0 | .valueError => 1 | .dead => 2) = [0, 1, 2] := by decide
 
 end Psi.Extract
